@@ -81,10 +81,12 @@ func init() {
 			{Scenario: "xfer", Stratum: "close", Quick: 700, Thorough: 25000},
 			{Scenario: "peers", Stratum: "listener-close", Quick: 300, Thorough: 10000, PerJob: 8},
 			{Scenario: "xfer", Stratum: "close-yield", Quick: 600, Thorough: 20000, PerJob: 8},
+			{Scenario: "fec-fuzz", Stratum: "", Quick: 400, Thorough: 15000, PerJob: 16},
+			{Scenario: "forge-sess", Stratum: "", Quick: 200, Thorough: 6000, PerJob: 8},
 			{Scenario: "xfer", Stratum: "", Quick: 350, Thorough: 8000},
 		},
 		QuickBudget: 50 * time.Second, ThoroughBudget: 20 * time.Minute,
-		Rule: "one evaluation = one seeded simulated run ending in a full teardown (sessions, listener, transports closed in a seeded order; stratum 'close' additionally closes a seeded subset at a seeded instant in mid-transfer), followed by a 12 s grace period, one further hour of virtual time and a census of the bubble's goroutines; every pooled buffer of the run goes through the sanitizer (ownership, poison, quarantine). A run is non-trivial if payload reached a reader and either a fault fired or a mid-transfer Close was performed; distinct = distinct event-log hashes among those",
+		Rule: "one evaluation = one seeded simulated run ending in a full teardown (sessions, listener, transports closed in a seeded order; stratum 'close' additionally closes a seeded subset at a seeded instant in mid-transfer), followed by a 12 s grace period, one further hour of virtual time and a census of the bubble's goroutines; every pooled buffer of the run goes through the sanitizer (ownership, poison, quarantine). Stratum 'listener-close' parks the listener's receive goroutine at a yield point between its closed-test, the registration of a new peer's session and the hand-over to the accept backlog, lets the application close the listener there and releases it afterwards. Stratum 'close-yield' holds one library goroutine (read loop holding a datagram, post-processing about to transmit, a scheduled update about to run, a Read/Write about to block, or Close itself right after marking the session dead) at a yield point across the scripted Closes and releases it a seeded time later. Scenarios fec-fuzz and forge-sess put the FEC decoder and whole sessions under forged and damaged input with the same buffer sanitizer. A run is non-trivial if payload reached a reader and either a fault fired or a mid-transfer Close was performed; distinct = distinct event-log hashes among those",
 		Real: realSession, Stub: stubSession, Assumptions: append([]string{"a buffer that is never recycled is not reported (the property forbids double recycling and use after recycling, not garbage)", "read-after-recycle is detected only when the poisoned bytes reach the wire decoder or a reader"}, assumeCommon...),
 		WantProbes: []string{"close-midway", "drop", "duplicate"},
 		nontrivial: func(r *proto.RunResult, nf int) bool { return r.Progress && nf > 0 },
